@@ -7,6 +7,7 @@
 #include "ucisession.h"
 #include "../gen/matepool.h"
 
+#include <fstream>
 #include <malloc.h>
 
 using namespace engine;
@@ -607,6 +608,33 @@ bool prop_C08(Tape& t, Report& rep)
 {
     br::init_engine();
     tune_malloc();
+    {
+        // plain regression witnesses (corpus/witness/C08.txt: "<fen> ; <depth>"): the shrunk inputs of repaired findings, run
+        // through the same oracle without any generator in between, once per process
+        static bool witnessesDone = false;
+        if (!witnessesDone)
+        {
+            witnessesDone = true;
+            std::ifstream wf(opt("witness_dir", "/verif/corpus/witness") + "/C08.txt");
+            std::string line;
+            sl::Session WS;
+            std::string wh;
+            while (std::getline(wf, line))
+            {
+                if (line.empty() || line[0] == '#') continue;
+                auto sc = line.find(';');
+                if (sc == std::string::npos) continue;
+                ref::Pos wp;
+                std::string fen = line.substr(0, sc);
+                while (!fen.empty() && fen.back() == ' ') fen.pop_back();
+                if (!ref::from_fen(fen, wp) || !ref::domain_violation(wp).empty()) continue;
+                int d = atoi(line.c_str() + sc + 1);
+                rep.cls("c08:regression_witness");
+                sl::Session fresh;
+                if (!c08_one(fresh, wp, "regression_witness", std::max(1, d), wh, rep)) return false;
+            }
+        }
+    }
     if (t.chance(1, 6)) return us::run(t, rep, us::F_C08);
     sl::Session S;
     std::string history;
@@ -738,7 +766,7 @@ bool prop_C08(Tape& t, Report& rep)
     {
         ref::Pos root;
         std::string kind;
-        int mode = t.weighted({4, 2, 2, 4, 1});
+        int mode = t.weighted({4, 2, 2, 4, 1, 0, 3});
         if (si > 0 && t.chance(1, 3)) mode = 5;  // search the same root again at another depth on the used table
         if (mode == 0 && t.chance(1, 3))
         {
@@ -771,6 +799,37 @@ bool prop_C08(Tape& t, Report& rep)
         {
             root = gen::fen_pos(gen::CATALOG[t.choose(gen::CATALOG_N)]);
             kind = "catalogue";
+        }
+        else if (mode == 6)
+        {
+            // overwhelming material: three to five queens against a king with a few minor pieces or pawns.  The weak side's
+            // nodes are the ones in which EVERY move is quiet and hopeless (all of them futility-pruned), next to real mates
+            bool strongWhite = t.flag();
+            ref::Pos p;
+            for (int attempt = 0; attempt < 6; ++attempt)
+            {
+                p = ref::Pos();
+                gen::place_kings(t, p, false);
+                int nq = 3 + int(t.choose(3));
+                for (int i = 0; i < nq; ++i)
+                {
+                    int sq = gen::free_square(t, p, false);
+                    if (sq >= 0) p.b[sq] = strongWhite ? 'Q' : 'q';
+                }
+                int nw = int(t.choose(4));
+                for (int i = 0; i < nw; ++i)
+                {
+                    char c = "nnbp"[t.choose(4)];
+                    int sq = gen::free_square(t, p, c == 'p');
+                    if (sq >= 0) p.b[sq] = strongWhite ? c : char(std::toupper((unsigned char)c));
+                }
+                p.wtm = t.flag();
+                gen::repair_not_to_move_check(p);
+                if (ref::domain_violation(p).empty() && !ref::legal_moves(p).empty()) break;
+            }
+            if (!ref::domain_violation(p).empty()) p = ref::startpos();
+            root = p;
+            kind = "overwhelming_material";
         }
         else if (t.flag())
         {
